@@ -2,33 +2,85 @@
 
 Oracle: an independent validity predicate over the raw rows (written from docs/data-model.md,
 "Valid tree sequence requirements", restricted to what the property statement lists).  Tri-state:
-  reject  - the predicate finds a violated listed requirement  -> tree_sequence()/load MUST raise a
+  reject  - reject_reasons() finds a violated listed requirement -> every gate entry point MUST raise a
             library error and leave every table row untouched;
-  accept  - a valid generated model, possibly changed by an operator known to keep validity -> MUST load;
-  either  - changed by a 'suspect' operator but the predicate finds nothing (requirements the statement
-            does not list) -> only 'raises a library error or returns', and rows untouched, are checked.
+  either  - nothing listed is violated, but unlisted_reasons() finds something the docs require and the
+            statement does not list (mutation.parent not the mutation above, an individual that is its own
+            parent, infinite sequence length, a user-supplied index that is sorted but not the one
+            build_index() makes, no index at an entry point that does not build one) -> only 'raises a library
+            error or returns' and 'rows untouched' are checked;
+  accept  - neither predicate finds anything -> MUST load.  (Before the audit every collection touched by a
+            'suspect' operator was 'either' even when the operator had produced a VALID boundary value, e.g.
+            mutation time == node time, so a check made too strict went unseen: class (e) of AUDIT-C02.md.)
+
+The verdict is always a function of the rows (and index) actually handed to the gate, never of the operator
+that produced them; the operators only steer coverage.
+
+Families (fixed shares, see cases()):
+  mutate  - random valid model + 0..4 random operators x random index state (the original workload);
+  sweep   - the operator CATALOGUE enumerated round-robin (every column x every boundary value x first/last/random
+            row), one departure per case on a model that is forced to have the rows the operator needs;
+  index   - the index-fault catalogue (entry out of range / duplicated / reversed / swapped / rotated, first and last
+            slot, insertion and removal order) on an otherwise valid model;
+  reorder - VALID collections in non-canonical order (renumbered nodes, equal-time parents in any order, individuals
+            whose parents come later, equal-time migrations, other valid mutation orders, extreme coordinates);
+  large   - structurally extreme instances (255-300 children, depth 300, 260 mutations on one site, 300 sites /
+            trees / individuals / migrations, empty collections) with no or one departure in the first or last row.
+Entry points: TableCollection.tree_sequence() for every case (plus a second call on the same object) and two
+alternates per case, round-robin: tskit.load(path / pathlib.Path / open file), TreeSequence.load(path),
+load(skip_reference_sequence=True), TableCollection.load(path).tree_sequence(), TreeSequence.load_tables(tc) with and
+without build_indexes (keyword), the low-level _tskit.TreeSequence.load_tables (positional and keyword), and
+tree_sequence() of copy() / pickle round trip / fromdict(asdict()) of the collection.
 """
+import io
 import math
 import os
+import pathlib
+import pickle
+import struct
 import tempfile
 
+import _tskit
 import numpy as np
 import tskit
 
 from lib import gen
 from lib.harness import case_rng
-from lib.model import NULL, forest
+from lib.model import NODE_IS_SAMPLE, NULL, RowModel, forest, mutation_parents, sort_edges_key
 from lib.tsk import from_tables, tables_bytes, to_tables
 
 ID = "C02"
 INF = float("inf")
 NAN = float("nan")
+IMAX = 2 ** 31 - 1
+IMIN = -(2 ** 31)
+
+
+def _bits(u):
+    return struct.unpack("<d", struct.pack("<Q", u))[0]
+
+
+# NaNs that are NOT tskit.UNKNOWN_TIME (0x7FF8000000000001): a mutation time holding one of them is a
+# non-finite time, not an unknown one
+NAN_NEG_UNKNOWN = _bits(0xFFF8000000000001)
+NAN_PAYLOAD2 = _bits(0x7FF8000000000002)
+
+# 40 slots per block; the block pattern is rotated so that no worker shard (idx % nshards) sees one family only
+_PATTERN = (["mutate"] * 14 + ["sweep"] * 16 + ["index"] * 4 + ["reorder"] * 5 + ["large"] * 1)
+_ORDER = [0, 14, 30, 34, 1, 15, 16, 2, 17, 35, 3, 18, 31, 4, 19, 20, 5, 21, 36, 6, 22, 32, 7, 23, 24, 8, 25, 37, 9, 26,
+          33, 10, 27, 28, 11, 29, 38, 12, 39, 13]
+assert sorted(_ORDER) == list(range(40)) and len(_PATTERN) == 40
 
 
 def cases(tier, seed):
     n = 9000 if tier == "quick" else 600000
+    counters = {}
     for k in range(n):
-        yield {"gen": "mutate", "k": k}
+        q, r = divmod(k, 40)
+        fam = _PATTERN[_ORDER[(r + 7 * q) % 40]]
+        i = counters.get(fam, 0)
+        counters[fam] = i + 1
+        yield {"gen": fam, "k": k, "i": i}
 
 
 # ----------------------------------------------------------------------------- reference predicate
@@ -140,7 +192,9 @@ def reject_reasons(m, index):
             muts_ok = False
         lastsite = s
     if muts_ok:
+        by_site = {}
         for k, (s, u, d, p, t, _) in enumerate(m.mutations):
+            by_site.setdefault(s, []).append(k)
             if p == k:
                 R.append("mutation.parent-self")
             elif p > k:
@@ -151,8 +205,7 @@ def reject_reasons(m, index):
                 pt = m.mutations[p][4]
                 if t is not None and pt is not None and t > pt:
                     R.append("mutation.time-older-than-parent-mutation")
-        for j in range(ns):
-            ks = [k for k in range(nm) if m.mutations[k][0] == j]
+        for j, ks in by_site.items():
             kn = [m.mutations[k][4] is not None for k in ks]
             if any(kn) and not all(kn):
                 R.append("mutation.time-known-unknown-mix")
@@ -161,11 +214,13 @@ def reject_reasons(m, index):
                 if any(b > a for a, b in zip(ts_, ts_[1:])):
                     R.append("mutation.order-time")
         if edges_ok and sites_ok and not R:
+            frs = {}
             for k, (s, u, d, p, t, _) in enumerate(m.mutations):
                 if t is None:
                     continue
-                fr = forest(m, m.sites[s][0])
-                pu = fr.par(u)
+                if s not in frs:
+                    frs[s] = m.forest_at(m.sites[s][0])
+                pu = frs[s].get(u, NULL)
                 if pu != NULL and not (t < m.nodes[pu][1]):
                     R.append("mutation.time-not-younger-than-parent-node")
     lastt = None
@@ -200,7 +255,46 @@ def reject_reasons(m, index):
     return R
 
 
+def unlisted_reasons(m, index, canonical):
+    """Only evaluated when reject_reasons() is empty.  Things the documentation requires (or leaves open) but the
+    property statement does not list: the EITHER zone, spelled out so that everything else is MUST-ACCEPT."""
+    U = []
+    if math.isinf(m.L):
+        U.append("sequence_length-infinite")   # 'L > 0' is all the docs say
+        return U
+    # "If another mutation occurs on the tree above the mutation in question, its ID must be listed as the parent"
+    # (and hence a parent at another site is wrong too); the statement only lists parent-before-child
+    if [x[3] for x in m.mutations] != mutation_parents(m):
+        U.append("mutation.parent-topology")
+    # "individuals ... parents ... must be valid or null": whether an individual may be its own parent is not said
+    for j, (fl, loc, pars, _) in enumerate(m.individuals):
+        if j in pars:
+            U.append("individual.self-parent")
+    # the docs do not say what the index is beyond 'built on the edges': a sorted permutation with another
+    # tie-break than build_index() uses is neither promised to load nor to fail
+    if index is not None and canonical is not None and (list(index[0]) != list(canonical[0]) or list(index[1]) != list(canonical[1])):
+        U.append("index.alternative-tie-break")
+    return U
+
+
 # ----------------------------------------------------------------------------- operators
+
+_ST = {"row": "rand"}
+
+
+def pick(rng, n, lo=0):
+    """Row to change: random in the 'mutate' family, forced first / second / last in the enumerating families
+    (loops that skip the first or the last row are a classic planted change)."""
+    mode = _ST["row"]
+    if n <= lo:
+        return lo
+    if mode == "first":
+        return lo
+    if mode == "second":
+        return min(lo + 1, n - 1)
+    if mode == "last":
+        return n - 1
+    return rng.randrange(lo, n)
 
 
 def setcol(tc, table, col, j, v):
@@ -219,44 +313,61 @@ REFCOLS = [("edges", "parent", "nodes", False), ("edges", "child", "nodes", Fals
            ("nodes", "population", "populations", True), ("nodes", "individual", "individuals", True),
            ("migrations", "node", "nodes", False), ("migrations", "source", "populations", False),
            ("migrations", "dest", "populations", False), ("individuals", "parents", "individuals", True)]
+REFVALS = ["-2", "-1", "n", "n+1", "imax", "imin", "0", "n-1"]
 FLOATCOLS = [("edges", "left"), ("edges", "right"), ("sites", "position"), ("nodes", "time"), ("mutations", "time"),
              ("migrations", "left"), ("migrations", "right"), ("migrations", "time")]
+FLOATVALS = ["nan", "inf", "-inf", "-1", "-0.0", "0.0", "L", "L+1", "L-ulp", "L+ulp", "1e308", "-1e308", "denorm", "-denorm",
+             "cur+ulp", "cur-ulp", "nan-neg-unknown", "nan-payload2"]
 
 
-def op_ref(rng, tc):
-    table, col, ref, _ = rng.choice(REFCOLS)
-    a = getattr(getattr(tc, table), col)
+def op_ref(rng, tc, col=None, val=None):
+    table, colname, ref, _ = col or rng.choice(REFCOLS)
+    a = getattr(getattr(tc, table), colname)
     if len(a) == 0:
         return None
     n = nrows(tc, ref)
-    v = rng.choice([-2, -1, n, n + 1, 2 ** 31 - 1, -(2 ** 31), 0, max(n - 1, 0)])
-    j = rng.randrange(len(a))
-    setcol(tc, table, col, j, v)
-    return f"ref:{table}.{col}={'n' if v == n else 'n+1' if v == n + 1 else v if v < 0 or v > 1000 else 'inrange'}"
+    name = val or rng.choice(REFVALS)
+    v = {"-2": -2, "-1": -1, "n": n, "n+1": n + 1, "imax": IMAX, "imin": IMIN, "0": 0, "n-1": max(n - 1, 0)}[name]
+    j = pick(rng, len(a))
+    setcol(tc, table, colname, j, v)
+    return f"ref:{table}.{colname}={name}"
 
 
-def op_float(rng, tc):
-    table, col = rng.choice(FLOATCOLS)
-    a = getattr(getattr(tc, table), col)
+def floatval(name, L, cur):
+    if name == "cur+ulp":
+        return math.nextafter(cur, INF) if np.isfinite(cur) else 0.0
+    if name == "cur-ulp":
+        return math.nextafter(cur, -INF) if np.isfinite(cur) else 0.0
+    return {"nan": NAN, "inf": INF, "-inf": -INF, "-1": -1.0, "-0.0": -0.0, "0.0": 0.0, "L": L, "L+1": L + 1,
+            "L-ulp": math.nextafter(L, 0), "L+ulp": math.nextafter(L, INF), "1e308": 1e308, "-1e308": -1e308,
+            "denorm": 5e-324, "-denorm": -5e-324, "nan-neg-unknown": NAN_NEG_UNKNOWN, "nan-payload2": NAN_PAYLOAD2}[name]
+
+
+def op_float(rng, tc, col=None, val=None):
+    table, colname = col or rng.choice(FLOATCOLS)
+    a = getattr(getattr(tc, table), colname)
     if len(a) == 0:
         return None
-    L = tc.sequence_length
-    j = rng.randrange(len(a))
-    cur = a[j]
-    v = rng.choice([NAN, INF, -INF, -1.0, -0.0, 0.0, L, L + 1, math.nextafter(L, 0), math.nextafter(L, INF), 1e308, -1e308,
-                    5e-324, -5e-324,
-                    math.nextafter(cur, INF) if np.isfinite(cur) else 0.0, math.nextafter(cur, -INF) if np.isfinite(cur) else 0.0])
-    setcol(tc, table, col, j, v)
-    return f"float:{table}.{col}"
+    j = pick(rng, len(a))
+    name = val or rng.choice(FLOATVALS)
+    v = floatval(name, tc.sequence_length, a[j])
+    if name.startswith("nan-"):
+        # numpy item assignment keeps the payload of a Python float NaN; go through the bit pattern to be sure
+        b = a.copy().view(np.uint64)
+        b[j] = struct.unpack("<Q", struct.pack("<d", v))[0]
+        setattr(getattr(tc, table), colname, b.view(np.float64))
+    else:
+        setcol(tc, table, colname, j, v)
+    return f"float:{table}.{colname}={name}"
 
 
-def op_interval(rng, tc):
-    table = rng.choice(["edges", "migrations"])
+def op_interval(rng, tc, table=None, mode=None):
+    table = table or rng.choice(["edges", "migrations"])
     t = getattr(tc, table)
     if t.num_rows == 0:
         return None
-    j = rng.randrange(t.num_rows)
-    mode = rng.choice(["left=right", "swap", "right=L", "left=0", "right<left"])
+    j = pick(rng, t.num_rows)
+    mode = mode or rng.choice(["left=right", "swap", "right=L", "left=0", "right<left", "right=left+ulp"])
     l, r = t.left[j], t.right[j]
     if mode == "left=right":
         setcol(tc, table, "left", j, r)
@@ -267,18 +378,24 @@ def op_interval(rng, tc):
         setcol(tc, table, "right", j, tc.sequence_length)
     elif mode == "left=0":
         setcol(tc, table, "left", j, 0.0)
+    elif mode == "right=left+ulp":
+        setcol(tc, table, "right", j, math.nextafter(l, INF))   # the shortest valid interval
     else:
         setcol(tc, table, "right", j, math.nextafter(l, -INF))
     return f"interval:{table}:{mode}"
 
 
-def op_time_order(rng, tc):
+def op_time_order(rng, tc, mode=None):
     e = tc.edges
     if e.num_rows == 0:
         return None
-    j = rng.randrange(e.num_rows)
+    j = pick(rng, e.num_rows)
     p, c = int(e.parent[j]), int(e.child[j])
-    mode = rng.choice(["equal", "younger", "next"])
+    mode = mode or rng.choice(["equal", "younger", "next", "child-up-to-parent", "child-just-below-parent"])
+    if mode in ("child-up-to-parent", "child-just-below-parent"):
+        tp = tc.nodes.time[p]
+        setcol(tc, "nodes", "time", c, tp if mode == "child-up-to-parent" else math.nextafter(tp, -INF))
+        return f"time-order:{mode}"
     tcx = tc.nodes.time[c]
     v = tcx if mode == "equal" else tcx - 1 if mode == "younger" else math.nextafter(tcx, INF)
     setcol(tc, "nodes", "time", p, v)
@@ -292,25 +409,26 @@ def _swap_rows(tc, table, a, b):
     t[b] = ra
 
 
-def op_swap_rows(rng, tc):
-    table = rng.choice(["edges", "edges", "sites", "mutations", "migrations"])
+def op_swap_rows(rng, tc, table=None):
+    forced = table is not None
+    table = table or rng.choice(["edges", "edges", "sites", "mutations", "migrations"])
     t = getattr(tc, table)
     if t.num_rows < 2:
         return None
-    a = rng.randrange(t.num_rows - 1)
-    b = a + 1 if rng.random() < 0.7 else rng.randrange(t.num_rows)
+    a = pick(rng, t.num_rows - 1)
+    b = a + 1 if (forced or rng.random() < 0.7) else rng.randrange(t.num_rows)
     if a == b:
         return None
     _swap_rows(tc, table, a, b)
     return f"swap-rows:{table}"
 
 
-def op_dup_row(rng, tc):
-    table = rng.choice(["edges", "sites"])
+def op_dup_row(rng, tc, table=None):
+    table = table or rng.choice(["edges", "sites", "migrations"])
     t = getattr(tc, table)
     if t.num_rows == 0:
         return None
-    j = rng.randrange(t.num_rows)
+    j = pick(rng, t.num_rows)
     rows = [t[k] for k in range(t.num_rows)]
     rows.insert(j + 1, rows[j])
     c = t.copy()
@@ -325,22 +443,27 @@ def op_dup_row(rng, tc):
     return f"dup-row:{table}"
 
 
-def op_overlap_child(rng, tc):
+def op_overlap_child(rng, tc, mode=None):
     e = tc.edges
     if e.num_rows == 0:
         return None
-    j = rng.randrange(e.num_rows)
+    j = pick(rng, e.num_rows)
     c = int(e.child[j])
     older = [u for u in range(tc.nodes.num_rows) if tc.nodes.time[u] > tc.nodes.time[c]]
     if not older:
         return None
     p = rng.choice(older)
     l, r = e.left[j], e.right[j]
-    mode = rng.choice(["same", "inside", "abut"])
+    mode = mode or rng.choice(["same", "inside", "abut", "one-ulp"])
     if mode == "same":
         nl, nr = l, r
     elif mode == "inside":
         nl, nr = (l + r) / 2, r
+    elif mode == "one-ulp":
+        # overlaps the existing interval by exactly one representable number
+        nl, nr = math.nextafter(r, -INF), tc.sequence_length
+        if not (l <= nl < nr):
+            return None
     else:
         nl, nr = r, tc.sequence_length
         if nl >= nr:
@@ -350,40 +473,88 @@ def op_overlap_child(rng, tc):
     return f"overlap-child:{mode}"
 
 
-def op_mut_parent(rng, tc):
+def op_mut_parent(rng, tc, mode=None):
     mu = tc.mutations
     if mu.num_rows == 0:
         return None
-    k = rng.randrange(mu.num_rows)
-    v = rng.choice([k, min(k + 1, mu.num_rows - 1), mu.num_rows - 1, 0, -1])
+    k = pick(rng, mu.num_rows)
+    mode = mode or rng.choice(["self", "next", "last", "0", "-1"])
+    v = {"self": k, "next": min(k + 1, mu.num_rows - 1), "last": mu.num_rows - 1, "0": 0, "-1": -1}[mode]
     setcol(tc, "mutations", "parent", k, v)
-    return "mutation-parent"
+    return f"mutation-parent:{mode}"
 
 
-def op_mut_time(rng, tc):
+def _site_rows(mu, s):
+    return [j for j in range(mu.num_rows) if mu.site[j] == s]
+
+
+def _node_parent_at_site(tc, k):
+    mu = tc.mutations
+    s, u = int(mu.site[k]), int(mu.node[k])
+    if not (0 <= s < tc.sites.num_rows):
+        return None
+    pos = tc.sites.position[s]
+    e = tc.edges
+    par = [int(e.parent[j]) for j in range(e.num_rows) if int(e.child[j]) == u and e.left[j] <= pos < e.right[j]]
+    if not par or not (0 <= par[0] < tc.nodes.num_rows):
+        return None
+    return par[0]
+
+
+MUT_TIME_MODES = ["unknown", "node-time", "below-node", "far-above", "parent-mut+", "parent-mut=", "all-unknown", "all-node-time",
+                  "parent-node-time", "just-below-parent-node", "prev-same-site+", "prev-same-site=", "one-known-rest-unknown",
+                  "one-unknown-rest-known"]
+
+
+def op_mut_time(rng, tc, mode=None):
     mu = tc.mutations
     if mu.num_rows == 0:
         return None
-    k = rng.randrange(mu.num_rows)
-    u = int(mu.node[k])
-    tn = tc.nodes.time[u]
-    mode = rng.choice(["unknown", "node-time", "below-node", "far-above", "parent-mut+", "all-unknown", "all-node-time",
-                       "parent-node-time", "parent-node-time", "just-below-parent-node"])
+    mode = mode or rng.choice(MUT_TIME_MODES + ["parent-node-time"])
+    unk = tskit.is_unknown_time(mu.time)
     if mode in ("parent-node-time", "just-below-parent-node"):
         # the boundary of "younger than the parent of the node in the tree at the site": equal is invalid,
-        # the next double below is valid
-        pos = tc.sites.position[int(mu.site[k])] if 0 <= int(mu.site[k]) < tc.sites.num_rows else None
-        e = tc.edges
-        par = [int(e.parent[j]) for j in range(e.num_rows) if pos is not None and int(e.child[j]) == u and e.left[j] <= pos < e.right[j]]
-        if not par or not (0 <= par[0] < tc.nodes.num_rows):
+        # the next double below is valid.  Only this bound may be wrong, so take a site with a single mutation.
+        cand = [k for k in range(mu.num_rows) if len(_site_rows(mu, mu.site[k])) == 1 and _node_parent_at_site(tc, k) is not None]
+        if not cand:
             return None
-        tp = tc.nodes.time[par[0]]
-        # make the whole site 'known' so that the only thing wrong is this bound
-        sk = [j for j in range(mu.num_rows) if mu.site[j] == mu.site[k]]
-        if len(sk) != 1:
-            return None
+        k = cand[pick(rng, len(cand))]
+        tp = tc.nodes.time[_node_parent_at_site(tc, k)]
         setcol(tc, "mutations", "time", k, tp if mode == "parent-node-time" else math.nextafter(tp, -INF))
         return f"mut-time:{mode}"
+    if mode in ("parent-mut+", "parent-mut="):
+        cand = [k for k in range(mu.num_rows) if 0 <= mu.parent[k] < mu.num_rows and not unk[mu.parent[k]]]
+        if not cand:
+            return None
+        k = cand[pick(rng, len(cand))]
+        pt = mu.time[mu.parent[k]]
+        setcol(tc, "mutations", "time", k, math.nextafter(pt, INF) if mode == "parent-mut+" else pt)
+        return f"mut-time:{mode}"
+    if mode in ("prev-same-site+", "prev-same-site="):
+        # 'ordered by decreasing time, if known': equal to the previous row is in order, one ulp above is not
+        cand = [k for k in range(1, mu.num_rows) if mu.site[k] == mu.site[k - 1] and not unk[k - 1] and not unk[k]]
+        if not cand:
+            return None
+        k = cand[pick(rng, len(cand))]
+        pt = mu.time[k - 1]
+        setcol(tc, "mutations", "time", k, math.nextafter(pt, INF) if mode == "prev-same-site+" else pt)
+        return f"mut-time:{mode}"
+    if mode in ("one-known-rest-unknown", "one-unknown-rest-known"):
+        # the mix inside ONE site, placed on its first / last / a random mutation
+        sites = sorted({int(s) for s in mu.site if len(_site_rows(mu, s)) >= 2})
+        if not sites:
+            return None
+        rows = _site_rows(mu, sites[pick(rng, len(sites))])
+        one = rows[pick(rng, len(rows))]
+        t = mu.time.copy()
+        for j in rows:
+            known = (j == one) == (mode == "one-known-rest-unknown")
+            t[j] = tc.nodes.time[mu.node[j]] if known else tskit.UNKNOWN_TIME
+        mu.time = t
+        return f"mut-time:{mode}"
+    k = pick(rng, mu.num_rows)
+    u = int(mu.node[k])
+    tn = tc.nodes.time[u] if 0 <= u < tc.nodes.num_rows else 0.0
     if mode == "unknown":
         setcol(tc, "mutations", "time", k, tskit.UNKNOWN_TIME)
     elif mode == "node-time":
@@ -392,11 +563,6 @@ def op_mut_time(rng, tc):
         setcol(tc, "mutations", "time", k, math.nextafter(tn, -INF))
     elif mode == "far-above":
         setcol(tc, "mutations", "time", k, tn + 1000)
-    elif mode == "parent-mut+":
-        p = int(mu.parent[k])
-        if p < 0 or tskit.is_unknown_time(mu.time[p]):
-            return None
-        setcol(tc, "mutations", "time", k, math.nextafter(mu.time[p], INF))
     elif mode == "all-unknown":
         mu.time = np.full(mu.num_rows, tskit.UNKNOWN_TIME)
     else:
@@ -405,25 +571,95 @@ def op_mut_time(rng, tc):
     return f"mut-time:{mode}"
 
 
-def op_seqlen(rng, tc):
-    v = rng.choice([0.0, -1.0, NAN, -0.0, tc.sequence_length / 2, tc.sequence_length * 2, INF])
+def op_adjacent(rng, tc, what=None, mode=None):
+    """Row j against row j-1 for the two 'sorted' float columns: equal / one ulp above / one ulp below the previous row.
+    sites.position: equal = duplicate (invalid), above = valid, below = out of order.
+    migrations.time: equal = valid (nondecreasing), above = valid, below = out of order."""
+    table, col = what or rng.choice([("sites", "position"), ("migrations", "time")])
+    t = getattr(tc, table)
+    if t.num_rows < 2:
+        return None
+    j = pick(rng, t.num_rows, lo=1)
+    prev = getattr(t, col)[j - 1]
+    if not np.isfinite(prev):
+        return None
+    mode = mode or rng.choice(["eq-prev", "prev+ulp", "prev-ulp"])
+    v = prev if mode == "eq-prev" else math.nextafter(prev, INF if mode == "prev+ulp" else -INF)
+    setcol(tc, table, col, j, v)
+    return f"adjacent:{table}.{col}:{mode}"
+
+
+def op_ind_parent(rng, tc, mode=None):
+    t = tc.individuals
+    if len(t.parents) == 0:
+        return None
+    k = pick(rng, len(t.parents))
+    owner = int(np.searchsorted(t.parents_offset, k, side="right") - 1)
+    mode = mode or rng.choice(["self", "later", "last", "null"])
+    v = {"self": owner, "later": min(owner + 1, t.num_rows - 1), "last": t.num_rows - 1, "null": -1}[mode]
+    setcol(tc, "individuals", "parents", k, v)
+    return f"individual-parent:{mode}"
+
+
+def op_edge_rows(rng, tc, mode=None):
+    """Change the NUMBER of edge rows (after the index was built this leaves an index of the wrong length, which
+    has_index() must not report as an index)."""
+    e = tc.edges
+    mode = mode or rng.choice(["truncate-1", "truncate-all", "append-root", "append-copy"])
+    if mode == "truncate-1":
+        if e.num_rows == 0:
+            return None
+        e.truncate(e.num_rows - 1)
+    elif mode == "truncate-all":
+        if e.num_rows == 0:
+            return None
+        e.truncate(0)
+    elif mode == "append-root":
+        # a new oldest node above a node that is nobody's child: the row goes last in the required order -> still valid
+        n = tc.nodes.num_rows
+        children = set(int(c) for c in e.child)
+        free = [u for u in range(n) if u not in children]
+        if not free or not np.all(np.isfinite(tc.nodes.time)):
+            return None
+        u = free[pick(rng, len(free))]
+        top = tc.nodes.add_row(flags=0, time=float(np.max(tc.nodes.time)) + 1.0)
+        e.add_row(0.0, tc.sequence_length, top, u)
+    else:
+        if e.num_rows == 0:
+            return None
+        r = e[e.num_rows - 1]
+        e.append(r)
+    return f"edge-rows:{mode}"
+
+
+def op_seqlen(rng, tc, val=None):
+    L = tc.sequence_length
+    name = val or rng.choice(["0", "-1", "nan", "-0.0", "L/2", "2L", "inf", "-inf", "denorm", "L-ulp", "maxright", "maxright-ulp"])
+    ends = [x for x in list(tc.edges.right) + list(tc.migrations.right) if np.isfinite(x)]
+    mr = max(ends) if ends else L
+    v = {"0": 0.0, "-1": -1.0, "nan": NAN, "-0.0": -0.0, "L/2": L / 2, "2L": L * 2, "inf": INF, "-inf": -INF, "denorm": 5e-324,
+         "L-ulp": math.nextafter(L, 0), "maxright": mr, "maxright-ulp": math.nextafter(mr, 0)}[name]
     tc.sequence_length = v
-    return "sequence_length"
+    return f"sequence_length={name}"
 
 
-def op_benign(rng, tc):
-    """Changes that keep validity (verdict 'accept' when the predicate agrees)."""
-    mode = rng.choice(["flags", "metadata", "L+", "anc", "time-shift", "node-append", "pop-append", "refseq", "drop-mutations"])
+BENIGN = ["flags", "metadata", "L+", "anc", "time-shift", "node-append", "pop-append", "refseq", "drop-mutations", "site-last-ulp",
+          "drop-sites", "drop-migrations", "drop-edges", "ind-append", "provenance", "time-units", "node-time-extreme"]
+
+
+def op_benign(rng, tc, mode=None):
+    """Changes that keep validity (the predicate decides; these are the ones expected to come out 'accept')."""
+    mode = mode or rng.choice(BENIGN)
     if mode == "flags" and tc.nodes.num_rows:
         f = tc.nodes.flags.copy()
-        f[rng.randrange(len(f))] ^= rng.choice([2, 4, 1 << 20])
+        f[pick(rng, len(f))] ^= rng.choice([1, 2, 4, 1 << 20, 1 << 31])
         tc.nodes.flags = f
     elif mode == "metadata":
         tc.metadata = b"xyz"
     elif mode == "L+":
         tc.sequence_length = tc.sequence_length + 1
     elif mode == "anc" and tc.sites.num_rows:
-        j = rng.randrange(tc.sites.num_rows)
+        j = pick(rng, tc.sites.num_rows)
         tc.sites[j] = tc.sites[j].replace(ancestral_state="ZZ")
     elif mode == "time-shift":
         tc.nodes.time = tc.nodes.time + 4.0
@@ -432,59 +668,385 @@ def op_benign(rng, tc):
         if tc.migrations.num_rows:
             tc.migrations.time = tc.migrations.time + 4.0
     elif mode == "node-append":
-        tc.nodes.add_row(flags=rng.choice([0, 1]), time=rng.choice([-5.0, 0.0, 1e6]))
+        tc.nodes.add_row(flags=rng.choice([0, 1]), time=rng.choice([-5.0, 0.0, 1e6, -1e308, 1e308, 5e-324, -0.0]))
     elif mode == "pop-append":
         tc.populations.add_row(metadata=b"p")
     elif mode == "refseq":
         tc.reference_sequence.data = "ACGT"
     elif mode == "drop-mutations":
         tc.mutations.clear()
+    elif mode == "site-last-ulp" and tc.sites.num_rows:
+        # the largest valid position: the last double below L
+        setcol(tc, "sites", "position", tc.sites.num_rows - 1, math.nextafter(tc.sequence_length, 0))
+    elif mode == "drop-sites":
+        tc.mutations.clear()
+        tc.sites.clear()
+    elif mode == "drop-migrations":
+        tc.migrations.clear()
+    elif mode == "drop-edges":
+        tc.edges.clear()   # every node isolated; mutations keep their (now parentless) nodes
+    elif mode == "ind-append":
+        tc.individuals.add_row(flags=0, parents=[-1, -1])
+    elif mode == "provenance":
+        tc.provenances.add_row(record="{}", timestamp="2020-01-01T00:00:00")
+    elif mode == "time-units":
+        tc.time_units = rng.choice(["generations", "uncalibrated", ""])
+    elif mode == "node-time-extreme" and tc.nodes.num_rows:
+        # a node that is nobody's parent / child / mutation node / migration node may have any finite time
+        used = set(int(x) for x in tc.edges.parent) | set(int(x) for x in tc.edges.child) | set(int(x) for x in tc.mutations.node)
+        free = [u for u in range(tc.nodes.num_rows) if u not in used]
+        if not free:
+            return None
+        setcol(tc, "nodes", "time", free[pick(rng, len(free))], rng.choice([1e308, -1e308, 5e-324, -0.0]))
     else:
         return None
     return f"benign:{mode}"
 
 
 SUSPECT_OPS = [op_ref, op_ref, op_float, op_float, op_interval, op_time_order, op_swap_rows, op_swap_rows, op_dup_row,
-               op_overlap_child, op_mut_parent, op_mut_time, op_mut_time, op_seqlen]
+               op_overlap_child, op_mut_parent, op_mut_time, op_mut_time, op_seqlen, op_adjacent, op_ind_parent, op_edge_rows]
+
+
+def _catalogue():
+    """(label, needs, function) for every single departure / boundary the sweep family enumerates."""
+    C = []
+    for col in REFCOLS:
+        need = "indparents" if col[0] == "individuals" else col[0]
+        for v in REFVALS:
+            C.append((f"ref:{col[0]}.{col[1]}={v}", need, lambda rng, tc, col=col, v=v: op_ref(rng, tc, col, v)))
+    for col in FLOATCOLS:
+        for v in FLOATVALS:
+            if v.startswith("nan-") and col != ("mutations", "time") and v != "nan-payload2":
+                continue
+            C.append((f"float:{col[0]}.{col[1]}={v}", col[0], lambda rng, tc, col=col, v=v: op_float(rng, tc, col, v)))
+    # the NaN family on mutation times twice more: only here does the payload decide (unknown vs non-finite)
+    for v in ("nan", "nan-neg-unknown", "nan-payload2"):
+        C.append((f"float:mutations.time={v}", "mutations", lambda rng, tc, v=v: op_float(rng, tc, ("mutations", "time"), v)))
+    for table in ("edges", "migrations"):
+        for mode in ("left=right", "swap", "right=L", "left=0", "right<left", "right=left+ulp"):
+            C.append((f"interval:{table}:{mode}", table, lambda rng, tc, t=table, mo=mode: op_interval(rng, tc, t, mo)))
+    for mode in ("equal", "younger", "next", "child-up-to-parent", "child-just-below-parent"):
+        C.append((f"time-order:{mode}", "edges", lambda rng, tc, mo=mode: op_time_order(rng, tc, mo)))
+    for table in ("edges", "sites", "mutations", "migrations"):
+        C.append((f"swap-rows:{table}", table + "2", lambda rng, tc, t=table: op_swap_rows(rng, tc, t)))
+    for table in ("edges", "sites", "migrations"):
+        C.append((f"dup-row:{table}", table, lambda rng, tc, t=table: op_dup_row(rng, tc, t)))
+    for mode in ("same", "inside", "abut", "one-ulp"):
+        C.append((f"overlap-child:{mode}", "edges", lambda rng, tc, mo=mode: op_overlap_child(rng, tc, mo)))
+    for mode in ("self", "next", "last", "0", "-1"):
+        C.append((f"mutation-parent:{mode}", "mutations", lambda rng, tc, mo=mode: op_mut_parent(rng, tc, mo)))
+    for mode in MUT_TIME_MODES:
+        need = {"parent-mut+": "mutparent-known", "parent-mut=": "mutparent-known", "prev-same-site+": "multimut-known",
+                "prev-same-site=": "multimut-known", "one-known-rest-unknown": "multimut", "one-unknown-rest-known": "multimut",
+                "parent-node-time": "mut-under-parent", "just-below-parent-node": "mut-under-parent"}.get(mode, "mutations")
+        reps = 3 if mode in ("parent-node-time", "just-below-parent-node", "parent-mut+", "prev-same-site+", "node-time", "below-node") else 1
+        for _ in range(reps):
+            C.append((f"mut-time:{mode}", need, lambda rng, tc, mo=mode: op_mut_time(rng, tc, mo)))
+    for what in (("sites", "position"), ("migrations", "time")):
+        for mode in ("eq-prev", "prev+ulp", "prev-ulp"):
+            C.append((f"adjacent:{what[0]}.{what[1]}:{mode}", what[0] + "2", lambda rng, tc, w=what, mo=mode: op_adjacent(rng, tc, w, mo)))
+    for mode in ("self", "later", "last", "null"):
+        C.append((f"individual-parent:{mode}", "indparents", lambda rng, tc, mo=mode: op_ind_parent(rng, tc, mo)))
+    for mode in ("truncate-1", "truncate-all", "append-root", "append-copy"):
+        C.append((f"edge-rows:{mode}", "edges", lambda rng, tc, mo=mode: op_edge_rows(rng, tc, mo)))
+    for v in ("0", "-1", "nan", "-0.0", "L/2", "2L", "inf", "-inf", "denorm", "L-ulp", "maxright", "maxright-ulp"):
+        C.append((f"sequence_length={v}", None, lambda rng, tc, v=v: op_seqlen(rng, tc, v)))
+    for mode in BENIGN:
+        C.append((f"benign:{mode}", None, lambda rng, tc, mo=mode: op_benign(rng, tc, mo)))
+    return C
+
+
+CATALOGUE = _catalogue()
+# a stride coprime to the catalogue length visits every entry before repeating and decorrelates entry and row mode
+_STRIDE = next(s for s in range(37, 200) if math.gcd(s, len(CATALOGUE)) == 1)
+ROWMODES = ["first", "last", "rand", "last", "first", "second"]
+
+
+# ----------------------------------------------------------------------------- index states
+
+INDEX_FAULTS = ([("oor", w, pos, v) for w in "IO" for pos in ("first", "last", "mid") for v in ("-1", "ne", "ne+1", "imax", "imin")]
+                + [("dup", w, pos, None) for w in "IO" for pos in ("head", "tail", "tail-from-head", "head-from-tail")]
+                + [("reverse", w, None, None) for w in ("I", "O", "IO")]
+                + [("swap", w, pos, None) for w in "IO" for pos in ("first", "last", "mid")]
+                + [("rotate", w, None, None) for w in "IO"])
+
+
+def apply_index_fault(rng, tc, fault):
+    """tc has a freshly built index; replace it by a user-supplied one with exactly one fault."""
+    ne = tc.edges.num_rows
+    if ne == 0:
+        return None
+    I = tc.indexes.edge_insertion_order.copy()
+    O = tc.indexes.edge_removal_order.copy()
+    kind, which, pos, v = fault
+    arrs = [a for a, w in ((I, "I"), (O, "O")) if w in which]
+    for a in arrs:
+        if kind == "oor":
+            j = {"first": 0, "last": ne - 1, "mid": rng.randrange(ne)}[pos]
+            a[j] = {"-1": -1, "ne": ne, "ne+1": ne + 1, "imax": IMAX, "imin": IMIN}[v]
+        elif kind == "dup":
+            if ne < 2:
+                return None
+            if pos == "head":
+                a[0] = a[1]
+            elif pos == "tail":
+                a[-1] = a[-2]
+            elif pos == "tail-from-head":
+                a[-1] = a[0]   # the tail of the removal order (edges ending at L) is only seen by reverse traversal
+            else:
+                a[0] = a[-1]
+        elif kind == "reverse":
+            a[:] = a[::-1].copy()
+        elif kind == "swap":
+            if ne < 2:
+                return None
+            j = {"first": 0, "last": ne - 2, "mid": rng.randrange(ne - 1)}[pos]
+            a[j], a[j + 1] = a[j + 1], a[j]
+        elif kind == "rotate":
+            a[:] = np.roll(a, 1)
+    tc.indexes = tskit.TableCollectionIndexes(edge_insertion_order=I, edge_removal_order=O)
+    return f"{kind}:{which}" + (f"@{pos}" if pos else "") + (f"={v}" if v else "")
 
 
 def make_index(rng, tc, mode):
-    """Returns a description; leaves tc with the requested index state."""
+    """Leaves tc with the requested index state; returns a label for user-supplied faults."""
     ne = tc.edges.num_rows
     if mode == "absent":
         tc.drop_index()
-        return
+        return None
+    if mode == "stale":
+        return None  # built before the row edits by the caller, left as it is
     try:
         tc.build_index()
     except tskit.LibraryError:
         tc.drop_index()
-        return "absent(build failed)"
+        return None
     if mode == "built" or ne == 0:
-        return
-    I = tc.indexes.edge_insertion_order.copy()
-    O = tc.indexes.edge_removal_order.copy()
+        return None
     if mode == "reversed":
-        I = I[::-1].copy()
-    elif mode == "permuted":
+        return apply_index_fault(rng, tc, ("reverse", "I", None, None))
+    if mode == "permuted":
+        O = tc.indexes.edge_removal_order.copy()
         a, b = rng.randrange(ne), rng.randrange(ne)
         O[a], O[b] = O[b], O[a]
-    elif mode == "out-of-range":
-        (I if rng.random() < 0.5 else O)[rng.randrange(ne)] = rng.choice([-1, ne, ne + 1, 2 ** 31 - 1])
-    elif mode == "duplicate" and ne > 1:
-        which = rng.randrange(4)
-        if which == 0:
-            I[0] = I[1]
-        elif which == 1:
-            I[-1] = I[0]
-        elif which == 2:
-            O[-1] = O[0]   # the tail of the removal order (edges ending at L) is only seen by reverse traversal
-        else:
-            O[0] = O[-1]
-    elif mode == "stale":
-        pass  # built before a later row edit: handled by the caller ordering
-    tc.indexes = tskit.TableCollectionIndexes(edge_insertion_order=I, edge_removal_order=O)
-    return
+        tc.indexes = tskit.TableCollectionIndexes(edge_insertion_order=tc.indexes.edge_insertion_order, edge_removal_order=O)
+        return "permuted"
+    if mode == "out-of-range":
+        return apply_index_fault(rng, tc, ("oor", rng.choice("IO"), "mid", rng.choice(["-1", "ne", "ne+1", "imax"])))
+    if mode == "duplicate":
+        return apply_index_fault(rng, tc, ("dup", rng.choice("IO"), rng.choice(["head", "tail", "tail-from-head", "head-from-tail"]), None))
+    return None
 
+
+# ----------------------------------------------------------------------------- models
+
+
+def _has(m, need):
+    if need is None:
+        return True
+    if need == "edges":
+        return len(m.edges) > 0
+    if need == "edges2":
+        return len(m.edges) > 1
+    if need in ("sites", "nodes"):
+        return len(getattr(m, need)) > 0
+    if need == "sites2":
+        return len(m.sites) > 1
+    if need == "mutations":
+        return len(m.mutations) > 0
+    if need == "mutations2":
+        return len(m.mutations) > 1
+    if need == "migrations":
+        return len(m.migrations) > 0
+    if need == "migrations2":
+        return len(m.migrations) > 1
+    if need == "individuals":
+        return len(m.individuals) > 0
+    if need == "populations":
+        return len(m.populations) > 0
+    if need == "indparents":
+        return any(len(i[2]) for i in m.individuals)
+    counts = {}
+    for x in m.mutations:
+        counts[x[0]] = counts.get(x[0], 0) + 1
+    if need == "multimut":
+        return any(c > 1 for c in counts.values())
+    if need == "multimut-known":
+        return any(a[0] == b[0] and a[4] is not None and b[4] is not None for a, b in zip(m.mutations, m.mutations[1:]))
+    if need == "mutparent-known":
+        return any(x[3] != NULL and m.mutations[x[3]][4] is not None for x in m.mutations)
+    if need == "mut-under-parent":
+        return any(counts[x[0]] == 1 and x[1] in m.forest_at(m.sites[x[0]][0]) for x in m.mutations)
+    return True
+
+
+def gen_model(rng, need=None):
+    """A valid generated model that has the rows `need` names (bounded retries; the last attempt is returned anyway,
+    the operator then reports 'not applicable')."""
+    m = None
+    for _ in range(4):
+        m = gen.gen_full(rng, max_nodes=9, max_bp=4, max_sites=5, pops=True, migrations=True)
+        if need in ("edges", "edges2") or need is None or not m.edges:
+            if _has(m, need) and (need is None or m.edges or need in ("nodes", "individuals", "populations", "indparents")):
+                return m
+            if need in ("edges", "edges2"):
+                continue
+        for _ in range(8):
+            if _has(m, need):
+                return m
+            if need in ("migrations", "migrations2"):
+                if not m.populations:
+                    gen.decorate_pops_inds(rng, m, npop=2)
+                gen.decorate_migrations(rng, m, maxn=4)
+            elif need in ("indparents", "individuals", "populations"):
+                gen.decorate_pops_inds(rng, m, npop=max(1, len(m.populations)), nind=rng.randint(2, 4))
+            else:
+                known = True if need in ("multimut-known", "mutparent-known", "mut-under-parent") and rng.random() < 0.8 else None
+                gen.decorate_sites(rng, m, max_sites=5, known_times=known)
+    return m
+
+
+def reorder_model(rng, m, mode):
+    """VALID collections that are not in the order to_tables(gen_full()) produces."""
+    n = m.num_nodes
+    if mode == "renumber-nodes":
+        perm = list(range(n))
+        rng.shuffle(perm)   # old id -> new id
+        nodes = [None] * n
+        for u in range(n):
+            nodes[perm[u]] = m.nodes[u]
+        m.nodes = nodes
+        m.edges = [(l, r, perm[p], perm[c], md) for l, r, p, c, md in m.edges]
+        m.edges.sort(key=sort_edges_key(m))
+        m.mutations = [(s, perm[u], d, p, t, md) for s, u, d, p, t, md in m.mutations]
+        m.migrations = [(l, r, perm[u], a, b, t, md) for l, r, u, a, b, t, md in m.migrations]
+    elif mode == "equal-time-parents":
+        # 'edges for a parent contiguous, nondecreasing parent time': parents of equal time may come in any order
+        rank = {u: rng.random() for u in range(n)}
+        m.edges = sorted(m.edges, key=lambda e: (m.time(e[2]), rank[e[2]], e[3], e[0]))
+    elif mode == "individual-parents-later":
+        # "A valid tree sequence does not require individuals to be sorted in any particular order"
+        nind = len(m.individuals)
+        inds = []
+        for i, (f, loc, pars, md) in enumerate(m.individuals):
+            others = [j for j in range(nind) if j != i]
+            pars = tuple(rng.choice(others + [NULL]) for _ in range(rng.randint(1, 2))) if others else (NULL,)
+            inds.append((f, loc, pars, md))
+        m.individuals = inds
+    elif mode == "equal-time-migrations":
+        if m.migrations:
+            t0 = m.migrations[0][5]
+            migs = [g[:5] + (t0,) + g[6:] for g in m.migrations]
+            rng.shuffle(migs)
+            m.migrations = migs
+    elif mode == "mutation-order":
+        # any order with known times non-increasing and parents before children is valid: shuffle, then order by
+        # (-time, depth of the node in the tree at the site); parents are recomputed for the new row order
+        muts = []
+        for j, s in enumerate(m.sites):
+            fr = forest(m, s[0])
+            rows = [m.mutations[k] for k in m.site_mutations(j)]
+            rng.shuffle(rows)
+            rows.sort(key=lambda x: (-(x[4]) if x[4] is not None else 0.0, fr.depth(x[1]) * -1 + 0 if False else -fr.depth(x[1]) * -1))
+            muts.extend(rows)
+        m.mutations = muts
+        par = mutation_parents(m)
+        m.mutations = [(s, u, d, par[k], t, md) for k, (s, u, d, _, t, md) in enumerate(m.mutations)]
+    elif mode == "equal-mutation-times":
+        # every mutation at its node's time: the youngest valid value everywhere, ties in time inside sites
+        if m.mutations:
+            muts = []
+            for j, s in enumerate(m.sites):
+                fr = forest(m, s[0])
+                rows = [(a, u, d, p, m.time(u), md) for a, u, d, p, t, md in (m.mutations[k] for k in m.site_mutations(j))]
+                rows.sort(key=lambda x: (-x[4], fr.depth(x[1])))
+                muts.extend(rows)
+            m.mutations = muts
+            par = mutation_parents(m)
+            m.mutations = [(s, u, d, par[k], t, md) for k, (s, u, d, _, t, md) in enumerate(m.mutations)]
+    elif mode == "extreme-coordinates":
+        # a site on 0 and one on the last double below L; node times shifted to huge / tiny magnitudes keep their order
+        if m.sites:
+            pos = [s[0] for s in m.sites]
+            pos[0] = 0.0
+            if len(pos) > 1:
+                pos[-1] = math.nextafter(m.L, 0)
+            m.sites = [(p,) + s[1:] for p, s in zip(pos, m.sites)]
+        scale = rng.choice([2.0 ** 60, 2.0 ** -60, -1.0])
+        if scale > 0:
+            m.nodes = [(f, t * scale, p, i, md) for f, t, p, i, md in m.nodes]
+            m.mutations = [(s, u, d, p, None if t is None else t * scale, md) for s, u, d, p, t, md in m.mutations]
+            m.edges.sort(key=sort_edges_key(m))
+    return m
+
+
+REORDER_MODES = ["renumber-nodes", "equal-time-parents", "individual-parents-later", "equal-time-migrations", "mutation-order",
+                 "equal-mutation-times", "extreme-coordinates", "renumber-nodes", "equal-time-parents"]
+LARGE_KINDS = ["star", "chain", "one-site-many-mutations", "many-sites", "many-trees", "many-individuals", "many-migrations",
+               "empty", "one-node", "sites-only", "two-level-star"]
+
+
+def large_model(rng, kind):
+    N = rng.choice([255, 256, 257, 300])
+    m = RowModel()
+    if kind == "star":
+        m.L = 4.0
+        m.nodes = [(NODE_IS_SAMPLE, 0.0, NULL, NULL, b"")] * N + [(0, 1.0, NULL, NULL, b"")]
+        m.edges = [(0.0, 4.0, N, c, b"") for c in range(N)]
+    elif kind == "two-level-star":
+        m.L = 2.0
+        m.nodes = [(NODE_IS_SAMPLE, 0.0, NULL, NULL, b"")] * N + [(0, 1.0, NULL, NULL, b""), (0, 1.0, NULL, NULL, b""), (0, 2.0, NULL, NULL, b"")]
+        half = N // 2
+        m.edges = ([(0.0, 2.0, N, c, b"") for c in range(half)] + [(0.0, 2.0, N + 1, c, b"") for c in range(half, N)]
+                   + [(0.0, 2.0, N + 2, N, b""), (0.0, 2.0, N + 2, N + 1, b"")])
+    elif kind in ("chain", "one-site-many-mutations"):
+        m.L = 8.0
+        D = N if kind == "chain" else 260
+        m.nodes = [(NODE_IS_SAMPLE if u == 0 else 0, float(u), NULL, NULL, b"") for u in range(D)]
+        m.edges = [(0.0, 8.0, u + 1, u, b"") for u in range(D - 1)]
+        if kind == "one-site-many-mutations":
+            known = rng.random() < 0.6
+            m.sites = [(3.0, "A", b"")]
+            # ancestors first; a known time half way up the branch (the top node has no parent: any older time)
+            m.mutations = [(0, u, "CG"[u % 2], NULL, (u + 0.5) if known else None, b"") for u in range(D - 1, -1, -1)]
+            par = mutation_parents(m)
+            m.mutations = [(s, u, d, par[k], t, md) for k, (s, u, d, _, t, md) in enumerate(m.mutations)]
+    elif kind == "many-sites":
+        m.L = float(N)
+        m.nodes = [(NODE_IS_SAMPLE, 0.0, NULL, NULL, b""), (0, 1.0, NULL, NULL, b"")]
+        m.edges = [(0.0, m.L, 1, 0, b"")]
+        known = rng.random() < 0.5
+        m.sites = [(float(j), "A", b"") for j in range(N)]
+        m.mutations = [(j, 0, "T", NULL, 0.5 if known else None, b"") for j in range(N)]
+    elif kind == "many-trees":
+        m.L = float(N)
+        m.nodes = [(NODE_IS_SAMPLE, 0.0, NULL, NULL, b""), (NODE_IS_SAMPLE, 0.0, NULL, NULL, b""), (0, 1.0, NULL, NULL, b"")]
+        m.edges = sorted([(float(i), float(i + 1), 2, i % 2, b"") for i in range(N)], key=lambda e: (e[3], e[0]))
+    elif kind == "many-individuals":
+        m.L = 1.0
+        m.individuals = [(0, (), (i - 1,) if i else (NULL,), b"") for i in range(N)]
+        m.populations = [(b"",)] * N
+        m.nodes = [(NODE_IS_SAMPLE, 0.0, i, i, b"") for i in range(N)]
+    elif kind == "many-migrations":
+        m.L = float(N)
+        m.populations = [(b"",), (b"",)]
+        m.nodes = [(NODE_IS_SAMPLE, 0.0, 0, NULL, b"")]
+        m.migrations = [(float(i), float(i + 1), 0, i % 2, (i + 1) % 2, float(i // 2), b"") for i in range(N)]
+    elif kind == "empty":
+        m.L = rng.choice([1.0, 5e-324, 1e308])
+    elif kind == "one-node":
+        m.L = 1.0
+        m.nodes = [(rng.choice([0, 1]), rng.choice([0.0, -3.5, 1e308]), NULL, NULL, b"")]
+        if rng.random() < 0.5:
+            m.sites = [(0.0, "", b"")]
+            m.mutations = [(0, 0, "", NULL, None, b"")]
+    elif kind == "sites-only":
+        m.L = 2.0
+        m.sites = [(0.0, "A", b""), (1.0, "C", b""), (math.nextafter(2.0, 0), "G", b"")]
+    return m
+
+
+# ----------------------------------------------------------------------------- gate entry points
 
 LIB_ERRORS = (tskit.LibraryError, ValueError, OverflowError)
 
@@ -493,56 +1055,222 @@ def rows_snapshot(tc):
     return [x for x in tables_bytes(tc) if not x[0].startswith("/indexes")]
 
 
+def index_of(tc):
+    if not tc.has_index():
+        return None
+    return ([int(x) for x in tc.indexes.edge_insertion_order], [int(x) for x in tc.indexes.edge_removal_order])
+
+
+def canonical_index(tc):
+    """What build_index() makes for these rows (only used to tell a user index with another tie-break apart)."""
+    c = tc.copy()
+    c.drop_index()
+    try:
+        c.build_index()
+    except LIB_ERRORS:
+        return None
+    return index_of(c)
+
+
+def _dump(tc, d, how):
+    path = os.path.join(d, "x.trees")
+    if how == "fileobj":
+        with open(path, "wb") as f:
+            tc.dump(f)
+    else:
+        tc.dump(path)
+    return path
+
+
+def _load_fileobj(path):
+    with open(path, "rb") as f:
+        return tskit.load(f)
+
+
+def _ll_load_tables(tc, form):
+    ll = _tskit.TreeSequence()
+    if form == "positional":
+        ll.load_tables(tc._ll_tables)
+    elif form == "positional-build":
+        ll.load_tables(tc._ll_tables, True)
+    elif form == "keyword":
+        ll.load_tables(tables=tc._ll_tables, build_indexes=False)
+    else:
+        ll.load_tables(tables=tc._ll_tables, build_indexes=1)
+    return tskit.TreeSequence(ll)
+
+
+# name, kind.  kind: 'file' = dump then load (needs the index in the file), 'tables' = TreeSequence.load_tables without
+# building, 'tables-build' = the index is rebuilt on the library's private copy (a user-supplied index is ignored),
+# 'object' = tree_sequence() of another TableCollection object holding the same data
+ALT_ENTRY_POINTS = [
+    ("tskit.load(path)", "file"), ("load_tables(tc)", "tables"), ("copy().tree_sequence", "object"),
+    ("tskit.load(fileobj)", "file"), ("load_tables(tc,build_indexes=True)", "tables-build"), ("pickle.tree_sequence", "object"),
+    ("TreeSequence.load(path)", "file"), ("_tskit.load_tables(positional)", "tables"), ("fromdict(asdict()).tree_sequence", "object"),
+    ("tskit.load(Path)", "file"), ("_tskit.load_tables(keyword,build)", "tables-build"), ("TableCollection.load.tree_sequence", "object"),
+    ("tskit.load(skip_reference_sequence)", "file"), ("_tskit.load_tables(keyword)", "tables"),
+    ("tskit.load(path)<-dump(fileobj)", "file"), ("_tskit.load_tables(positional,build)", "tables-build"),
+]
+
+
 def run_case(case, ctx):
     rng = case_rng(case)
-    m = gen.gen_full(rng, max_nodes=9, max_bp=4, max_sites=5, pops=True, migrations=True)
-    tc = to_tables(m)
-    r = rng.random()
+    fam = case["gen"]
+    i = case.get("i", case["k"])
+    _ST["row"] = "rand"
     labels = []
-    suspect = False
-    if r < 0.12:
-        pass  # untouched valid model
-    elif r < 0.27:
-        lab = op_benign(rng, tc)
+    index_mode = None
+    index_label = None
+    prebuilt = False
+
+    # ------------------------------------------------------------ build the collection
+    if fam == "mutate":
+        m = gen.gen_full(rng, max_nodes=9, max_bp=4, max_sites=5, pops=True, migrations=True)
+        tc = to_tables(m)
+        index_mode = rng.choice(["absent", "built", "built", "reversed", "permuted", "out-of-range", "duplicate", "stale"])
+        if index_mode == "stale":
+            tc.build_index()
+            prebuilt = True
+        r = rng.random()
+        if r < 0.12:
+            pass  # untouched valid model
+        elif r < 0.27:
+            lab = op_benign(rng, tc)
+            if lab:
+                labels.append(lab)
+        else:
+            k = 1 if r < 0.8 else rng.randint(2, 4)
+            for _ in range(k):
+                try:
+                    lab = rng.choice(SUSPECT_OPS)(rng, tc)
+                except LIB_ERRORS + (IndexError,):
+                    lab = None  # the operator itself was refused or met rows an earlier operator broke (e.g. sort() inside op_overlap_child on already broken rows)
+                if lab:
+                    labels.append(lab)
+    elif fam == "sweep":
+        label, need, fn = CATALOGUE[(i * _STRIDE) % len(CATALOGUE)]
+        _ST["row"] = ROWMODES[(i // len(CATALOGUE) + i) % len(ROWMODES)]
+        m = gen_model(rng, need)
+        tc = to_tables(m)
+        index_mode = ["built", "built", "absent", "stale", "built", "stale"][(i // 3) % 6]
+        if label.startswith("edge-rows"):
+            index_mode = "stale"   # the point of these: an index of the wrong length must not count as an index
+        if index_mode == "stale":
+            tc.build_index()
+            prebuilt = True
+        try:
+            lab = fn(rng, tc)
+        except LIB_ERRORS + (IndexError,):
+            lab = None
         if lab:
             labels.append(lab)
+            ctx.feature("sweep-applied")
+        else:
+            ctx.feature("sweep-not-applicable:" + label.split("=")[0].split(":")[0])
+        ctx.feature("row:" + _ST["row"])
+    elif fam == "index":
+        m = gen_model(rng, "edges2")
+        tc = to_tables(m)
+        index_mode = "fault"
+    elif fam == "reorder":
+        mode = REORDER_MODES[i % len(REORDER_MODES)]
+        need = {"individual-parents-later": "individuals", "equal-time-migrations": "migrations2", "mutation-order": "multimut",
+                "equal-mutation-times": "mutations", "extreme-coordinates": "sites", "equal-time-parents": "edges2",
+                "renumber-nodes": "edges"}[mode]
+        m = gen_model(rng, need)
+        if mode == "equal-time-parents" and rng.random() < 0.7:
+            # make ties between parents certain
+            m = gen.gen_full(rng, max_nodes=9, max_bp=4, max_sites=5, pops=True, migrations=True, time_mode="ties")
+        m = reorder_model(rng, m, mode)
+        labels.append("reorder:" + mode)
+        tc = to_tables(m)
+        index_mode = ["built", "absent", "built", "reversed"][(i // len(REORDER_MODES)) % 4]
+    elif fam == "large":
+        kind = LARGE_KINDS[i % len(LARGE_KINDS)]
+        m = large_model(rng, kind)
+        labels.append("large:" + kind)
+        tc = to_tables(m)
+        index_mode = ["built", "absent", "stale"][(i // len(LARGE_KINDS)) % 3]
+        if index_mode == "stale":
+            tc.build_index()
+            prebuilt = True
+        if (i // len(LARGE_KINDS)) % 4 != 0:
+            # one departure in the first or the last row of a big table
+            _ST["row"] = ["first", "last", "last"][(i // len(LARGE_KINDS)) % 3]
+            for _ in range(6):
+                label, need, fn = CATALOGUE[rng.randrange(len(CATALOGUE))]
+                if label.startswith(("benign", "overlap-child", "dup-row")) or not _has(m, need):
+                    continue
+                try:
+                    lab = fn(rng, tc)
+                except LIB_ERRORS + (IndexError,):
+                    lab = None
+                if lab:
+                    labels.append(lab)
+                    break
     else:
-        k = 1 if r < 0.8 else rng.randint(2, 4)
-        for _ in range(k):
+        raise ValueError(f"unknown family {fam}")
+
+    if index_mode == "fault":
+        tc.build_index()
+        index_label = apply_index_fault(rng, tc, INDEX_FAULTS[i % len(INDEX_FAULTS)])
+        if rng.random() < 0.15:
+            # ... and a row departure as well (index faults must not mask row faults or the other way round)
             try:
                 lab = rng.choice(SUSPECT_OPS)(rng, tc)
             except LIB_ERRORS + (IndexError,):
-                lab = None  # the operator itself was refused or met rows an earlier operator broke (e.g. sort() inside op_overlap_child on already broken rows)
+                lab = None
             if lab:
                 labels.append(lab)
-                suspect = True
-    stale = False
-    index_mode = rng.choice(["absent", "built", "built", "reversed", "permuted", "out-of-range", "duplicate"])
-    make_index(rng, tc, index_mode)
-    user_index = None
-    if tc.has_index():
-        user_index = ([int(x) for x in tc.indexes.edge_insertion_order], [int(x) for x in tc.indexes.edge_removal_order])
-        if index_mode != "built":
-            suspect = True
-    back = from_tables(tc)
-    reasons = reject_reasons(back, user_index)
-    verdict = "reject" if reasons else ("either" if suspect else "accept")
-    ctx.feature("verdict:" + verdict)
-    ctx.feature("index:" + index_mode)
-    for lab in labels:
-        ctx.feature("op:" + lab.split("=")[0][:40])
-    for rs in set(reasons):
-        ctx.feature("reason:" + rs)
-    ctx.sig((m.signature(), tuple(labels), index_mode, str(user_index) if index_mode not in ("absent", "built") else ""),
-            nontrivial=bool(labels) or index_mode not in ("absent", "built"))
-    desc = f"ops={labels} index={index_mode} reasons={sorted(set(reasons))}"
-    if case["k"] < 3:
-        ctx.sample({"case": case, "ops": labels, "index": index_mode, "verdict": verdict, "reasons": sorted(set(reasons))})
-    before = rows_snapshot(tc)
-    detail = {"model_after_ops": back.to_json(), "index": user_index}
+    else:
+        index_label = make_index(rng, tc, index_mode)
+    if prebuilt and not tc.has_index():
+        ctx.feature("stale-index-wrong-length")
 
-    def attempt(how, fn):
+    # ------------------------------------------------------------ verdicts from the rows actually present
+    user_index = index_of(tc)
+    back = from_tables(tc)
+    canonical = canonical_index(tc) if user_index is not None else None
+
+    def judge(index):
+        reasons = reject_reasons(back, index)
+        if reasons:
+            return "reject", sorted(set(reasons))
+        un = unlisted_reasons(back, index, canonical)
+        if un:
+            return "either", sorted(set(un))
+        return "accept", []
+
+    V_obj = judge(user_index)                       # tree_sequence(): builds the index when there is none
+    V_rebuilt = judge(None) if user_index is not None else V_obj   # entry points that rebuild the index on their own copy
+    verdict, reasons = V_obj
+    ctx.feature("family:" + fam)
+    ctx.feature("verdict:" + verdict)
+    ctx.feature("index:" + str(index_mode))
+    if index_label:
+        ctx.feature("index-fault:" + index_label)
+    for lab in labels:
+        ctx.feature("op:" + lab[:48])
+        if verdict == "accept":
+            ctx.feature("accept-after:" + lab[:48])
+    for rs in reasons:
+        ctx.feature(("reason:" if verdict == "reject" else "either:") + rs)
+    if user_index is not None and index_mode in ("stale",) and "index" in " ".join(reasons):
+        ctx.feature("stale-index-inconsistent")
+    ctx.sig((back.signature() if fam != "large" else (labels, back.L, len(back.nodes), len(back.edges)), tuple(labels), index_mode,
+             str(user_index) if index_mode not in ("absent", "built") else ""),
+            nontrivial=bool(labels) or index_mode not in ("absent", "built"))
+    desc = f"family={fam} ops={labels} index={index_mode}{'/' + index_label if index_label else ''}"
+    if case["k"] < 3:
+        ctx.sample({"case": case, "ops": labels, "index": index_mode, "verdict": verdict, "reasons": reasons})
+    before = rows_snapshot(tc)
+    detail = {"model_after_ops": back.to_json() if fam != "large" else "(large: replay the case)", "index": user_index if fam != "large" else None}
+
+    def attempt(how, fn, V, obj=None, obj_before=None):
+        """Call one entry point; V = (verdict, reasons) for the collection it is given."""
+        v, rs = V
         ctx.count("gate-calls:" + how)
+        ctx.step(f"{how}: {desc}")
         try:
             ts = fn()
             outcome = "accepted"
@@ -550,42 +1278,112 @@ def run_case(case, ctx):
             outcome = "rejected"
             err = e
         except Exception as e:  # noqa: BLE001
-            ctx.violation(f"gate/wrong-exception/{type(e).__name__}", f"{how}: {desc} raised {e!r}, not a library error", detail)
-            return
-        if verdict == "reject" and outcome == "accepted":
-            key = sorted(set(reasons))[0]
-            ctx.violation(f"gate/invalid-accepted/{key}", f"{how} accepted an invalid collection: {desc}", detail)
-        elif verdict == "accept" and outcome == "rejected":
+            ctx.violation(f"gate/wrong-exception/{type(e).__name__}", f"{how}: {desc} (oracle: {v} {rs}) raised {e!r}, not a library error", detail)
+            return None
+        ctx.count("verdict-checks:" + v)
+        if v == "reject" and outcome == "accepted":
+            ctx.violation(f"gate/invalid-accepted/{rs[0]}", f"{how} accepted an invalid collection: {desc} violated={rs}", detail)
+        elif v == "accept" and outcome == "rejected":
             ctx.violation("gate/valid-rejected", f"{how} rejected a valid collection ({err}): {desc}", detail)
         if outcome == "accepted":
-            # what was accepted must be usable: iterate trees and decode sites
+            # what was accepted must be usable: iterate trees
             for t in ts.trees():
                 t.num_edges
             if how == "tree_sequence":
                 ctx.count("accepted-usable")
-        after = rows_snapshot(tc)
-        if after != before:
-            changed = [a[0] for a, b in zip(after, before) if a != b][:5]
-            ctx.violation("gate/rows-changed", f"{how} changed table rows {changed} ({outcome}): {desc}", detail)
-        ctx.count("rows-unchanged-checks")
+        for o, b in ((tc, before), (obj, obj_before)):
+            if o is None:
+                continue
+            after = rows_snapshot(o)
+            if after != b:
+                changed = [a[0] for a, bb in zip(after, b) if a != bb][:5]
+                ctx.violation("gate/rows-changed", f"{how} changed table rows {changed} ({outcome}): {desc}", detail)
+            ctx.count("rows-unchanged-checks")
+        return outcome
 
-    attempt("tree_sequence", lambda: tc.tree_sequence())
-    # dump -> tskit.load must agree (index travels with the file; absent index is an error for load?)
-    if rng.random() < 0.5:
-        with tempfile.TemporaryDirectory() as d:
-            path = os.path.join(d, "x.trees")
-            try:
-                tc.dump(path)
-            except LIB_ERRORS:
-                ctx.count("dump-refused")
-                return
-            if tc.has_index():
-                attempt("tskit.load", lambda: tskit.load(path))
+    # ------------------------------------------------------------ alternate entry points (before tree_sequence(),
+    # which may add an index to tc)
+    k = case["k"]
+    alts = [ALT_ENTRY_POINTS[(2 * k) % len(ALT_ENTRY_POINTS)], ALT_ENTRY_POINTS[(2 * k + 1 + (k // len(ALT_ENTRY_POINTS)) % 7 * 2) % len(ALT_ENTRY_POINTS)]]
+    if fam == "large":
+        alts = alts[:1]
+    for name, kind in alts:
+        if kind == "tables":
+            if user_index is None:
+                # TreeSequence.load_tables() does not build: "the tables must be indexed" -> either, but a library error
+                V = ("either", ["index.absent"]) if verdict != "reject" else V_obj
             else:
-                ctx.count("load-without-index")
+                V = V_obj
+            if name == "load_tables(tc)":
+                fn = lambda: tskit.TreeSequence.load_tables(tc)  # noqa: E731
+            else:
+                form = "positional" if "positional" in name else "keyword"
+                fn = lambda form=form: _ll_load_tables(tc, form)  # noqa: E731
+            attempt(name, fn, V)
+        elif kind == "tables-build":
+            if name.startswith("load_tables"):
+                fn = lambda: tskit.TreeSequence.load_tables(tc, build_indexes=True)  # noqa: E731
+            else:
+                form = "positional-build" if "positional" in name else "keyword-build"
+                fn = lambda form=form: _ll_load_tables(tc, form)  # noqa: E731
+            attempt(name, fn, V_rebuilt)
+            if index_of(tc) != user_index:
+                ctx.violation("gate/index-changed", f"{name} changed the caller's index: {desc}", detail)
+        elif kind == "object":
+            with tempfile.TemporaryDirectory(prefix="c02-") as d:
                 try:
-                    tskit.load(path)
-                    if verdict == "reject":
-                        ctx.violation(f"gate/invalid-accepted/{sorted(set(reasons))[0]}", f"tskit.load accepted: {desc}", detail)
+                    if name.startswith("copy"):
+                        o = tc.copy()
+                    elif name.startswith("pickle"):
+                        o = pickle.loads(pickle.dumps(tc))
+                    elif name.startswith("fromdict"):
+                        o = tskit.TableCollection.fromdict(tc.asdict())
+                    else:
+                        o = tskit.TableCollection.load(_dump(tc, d, "path"))
                 except LIB_ERRORS:
-                    pass  # whether load() indexes an unindexed file is not specified: either
+                    ctx.count("copy-refused")
+                    continue
+            ob = rows_snapshot(o)
+            if ob == before and index_of(o) == user_index:
+                V = V_obj
+            else:
+                # the copy is not the same collection (fidelity of copies is C05/C10's business): judge what it holds
+                ctx.count("copy-differs")
+                oi = index_of(o)
+                mb = from_tables(o)
+                rr = reject_reasons(mb, oi)
+                V = ("reject", sorted(set(rr))) if rr else ("either", ["copy-differs"])
+            attempt(name, lambda: o.tree_sequence(), V, obj=o, obj_before=ob)
+        else:
+            with tempfile.TemporaryDirectory(prefix="c02-") as d:
+                try:
+                    path = _dump(tc, d, "fileobj" if "dump(fileobj)" in name else "path")
+                except LIB_ERRORS:
+                    ctx.count("dump-refused")
+                    continue
+                if user_index is None:
+                    # whether load() indexes an unindexed file is not specified: either (never accept an invalid one)
+                    V = ("either", ["index.absent"]) if verdict != "reject" else V_obj
+                    ctx.count("load-without-index")
+                else:
+                    V = V_obj
+                if name == "tskit.load(fileobj)":
+                    fn = lambda: _load_fileobj(path)  # noqa: E731
+                elif name == "TreeSequence.load(path)":
+                    fn = lambda: tskit.TreeSequence.load(path)  # noqa: E731
+                elif name == "tskit.load(Path)":
+                    fn = lambda: tskit.load(pathlib.Path(path))  # noqa: E731
+                elif name == "tskit.load(skip_reference_sequence)":
+                    fn = lambda: tskit.load(path, skip_reference_sequence=True)  # noqa: E731
+                else:
+                    fn = lambda: tskit.load(path)  # noqa: E731
+                attempt(name, fn, V)
+                ctx.count("gate-calls:tskit.load")   # all file forms together (REQUIRED)
+
+    # ------------------------------------------------------------ the main entry point, twice on the same object
+    first = attempt("tree_sequence", lambda: tc.tree_sequence(), V_obj)
+    if first is not None and k % 3 == 0:
+        # the same object again (it now has an index if the library could build one): same answer, rows still untouched
+        second = attempt("tree_sequence(again)", lambda: tc.tree_sequence(), V_obj)
+        if second is not None and second != first:
+            ctx.violation("gate/second-call-differs", f"tree_sequence() {first} then {second} on the same unchanged collection: {desc}", detail)
